@@ -17,7 +17,7 @@ from .ast import Node, REPO
 
 VERIF = os.path.dirname(os.path.dirname(os.path.abspath(__file__)))
 CACHE = os.path.join(VERIF, '.cache')
-FRONTEND_VERSION = '13'
+FRONTEND_VERSION = '15'
 
 
 class AnalysisBroken(Exception):
@@ -381,6 +381,9 @@ def _clone(n, mapping, line, col, file):
     from .ast import Node
     if n.kind == 'DeclRefExpr' and n.refid in mapping:
         return _clone(mapping[n.refid], {}, line, col, file)
+    if n.kind == 'ImplicitCastExpr' and n.cast == 'LValueToRValue' and n.kids and n.kids[0].kind == 'DeclRefExpr' and n.kids[0].refid in mapping:
+        # reading a parameter yields the argument's value: the argument expression is already an rvalue
+        return _clone(mapping[n.kids[0].refid], {}, line, col, file)
     m = Node()
     for sl in Node.__slots__:
         if sl not in ('kids', 'uid'):
@@ -390,6 +393,150 @@ def _clone(n, mapping, line, col, file):
     m.line, m.col, m.file = line, col, file
     m.kids = [_clone(c, mapping, line, col, file) for c in n.kids]
     return m
+
+
+_KNOWN_NAMES = [None]
+
+
+def known_names():
+    """identifiers the rule code and the frozen tables mention: functions known to the rules by name are never expanded"""
+    if _KNOWN_NAMES[0] is None:
+        import re
+        words = set()
+        for d, pat in ((os.path.join(VERIF, 'm4lint'), '.py'), (os.path.join(VERIF, 'rules'), '.json')):
+            for fn in os.listdir(d):
+                if fn.endswith(pat):
+                    words |= set(re.findall(r'[A-Za-z_][A-Za-z_0-9]{3,}', open(os.path.join(d, fn), errors='replace').read()))
+        _KNOWN_NAMES[0] = words
+    return _KNOWN_NAMES[0]
+
+
+def _clone_stmt(n, mapping, idmap, pos):
+    """deep copy of a statement tree: parameters in `mapping` are replaced by the arguments, declarations get fresh ids
+    (idmap), nodes get fresh uids and increasing synthetic positions so that source order is preserved"""
+    from .ast import Node
+    if n.kind == 'DeclRefExpr' and n.refid in mapping:
+        return _clone(mapping[n.refid], {}, pos[0], pos[1], pos[2])
+    if n.kind == 'ImplicitCastExpr' and n.cast == 'LValueToRValue' and n.kids and n.kids[0].kind == 'DeclRefExpr' and n.kids[0].refid in mapping:
+        return _clone(mapping[n.kids[0].refid], {}, pos[0], pos[1], pos[2])
+    m = Node()
+    for sl in Node.__slots__:
+        if sl not in ('kids', 'uid'):
+            setattr(m, sl, getattr(n, sl))
+    _CLONE_N[0] += 1
+    m.uid = -_CLONE_N[0]
+    pos[1] += 1
+    m.line, m.col, m.file = pos[0], pos[1], pos[2]
+    if n.kind in ('VarDecl',) and n.id is not None:
+        m.id = idmap.setdefault(n.id, '%s~%d' % (n.id, _CLONE_N[0]))
+    if n.kind == 'DeclRefExpr' and n.refid in idmap:
+        m.refid = idmap[n.refid]
+        m.refkind = 'VarDecl'
+    m.kids = [_clone_stmt(c, mapping, idmap, pos) for c in n.kids]
+    return m
+
+
+def inline_statement_helpers(prog):
+    """Program normalisation, second kind: a call *statement* to a file-local `static void` helper that the rules do not know
+    by name is replaced by a block holding a copy of the helper's body.  Parameters that the helper only reads are replaced by
+    the arguments; parameters it modifies become locals of the block initialised with the arguments.  Helpers with early
+    returns, labels or recursion are left alone.  The helper itself is no longer analysed on its own."""
+    from .ast import Node
+    known = known_names()
+    helpers = {}
+    for f in prog.all_funcs():
+        b = f.body
+        if not (f.static and (f.file or '').endswith('.c') and b is not None and f.rettype.replace('static', '').replace('inline', '').strip() == 'void'):
+            continue
+        if f.name in known:
+            continue
+        stmts = list(b.kids)
+        if stmts and stmts[-1].kind == 'ReturnStmt' and not stmts[-1].kids:
+            stmts = stmts[:-1]
+        ok = True
+        for st in stmts:
+            for x in st.walk():
+                if x.kind in ('ReturnStmt', 'LabelStmt', 'GotoStmt') or x.kind.startswith('OMP'):
+                    ok = False
+                if x.kind == 'DeclRefExpr' and x.refkind == 'FunctionDecl' and x.ref == f.name:
+                    ok = False
+                if x.kind == 'VarDecl' and x.storage == 'static':
+                    ok = False
+        if ok:
+            helpers[(f.name, f.file)] = (f, stmts)
+    done = set()
+    for rounds in range(3):
+        changed = False
+        for f in prog.all_funcs():
+            if f.body is None or (f.name, f.file) in helpers:
+                continue
+            for blk in f.body.walk():
+                if blk.kind not in ('CompoundStmt', 'IfStmt', 'ForStmt', 'WhileStmt', 'DoStmt', 'CaseStmt', 'DefaultStmt'):
+                    continue
+                for n in blk.kids:
+                    if n.kind != 'CallExpr' or not n.kids:
+                        continue
+                    # only full-expression statements: in a for header the call is kid 0 / 3, skip those
+                    if blk.kind == 'ForStmt' and n is not blk.kids[-1]:
+                        continue
+                    if blk.kind in ('IfStmt', 'WhileStmt') and n is blk.kids[0]:
+                        continue
+                    c0 = n.kids[0]
+                    while c0.kind in ('ImplicitCastExpr', 'ParenExpr') and c0.kids:
+                        c0 = c0.kids[0]
+                    if c0.kind != 'DeclRefExpr' or c0.refkind != 'FunctionDecl':
+                        continue
+                    h = helpers.get((c0.ref, f.file))
+                    if h is None or len(n.kids) - 1 != len(h[0].params):
+                        continue
+                    g, stmts = h
+                    pids = dict((p.id, p) for p in g.params)
+                    modified = set()
+                    for st in stmts:
+                        for x in st.walk():
+                            if (x.kind == 'BinaryOperator' and x.op == '=') or x.kind == 'CompoundAssignOperator' or (x.kind == 'UnaryOperator' and x.op in ('++', '--', '&')):
+                                t = x.kids[0]
+                                while t.kind in ('ImplicitCastExpr', 'ParenExpr') and t.kids:
+                                    t = t.kids[0]
+                                if t.kind == 'DeclRefExpr' and t.refid in pids:
+                                    modified.add(t.refid)
+                    pos = [n.line, (n.col or 0), n.file]
+                    mapping, idmap, decls = {}, {}, []
+                    for pa, a in zip(g.params, n.kids[1:]):
+                        if pa.id in modified:
+                            v = Node()
+                            _CLONE_N[0] += 1
+                            v.uid = -_CLONE_N[0]
+                            v.kind, v.name, v.type, v.init = 'VarDecl', pa.name, pa.type, True
+                            v.id = idmap.setdefault(pa.id, '%s~%d' % (pa.id, _CLONE_N[0]))
+                            pos[1] += 1
+                            v.line, v.col, v.file = pos[0], pos[1], pos[2]
+                            v.kids = [_clone(a, {}, pos[0], pos[1], pos[2])]
+                            ds = Node()
+                            _CLONE_N[0] += 1
+                            ds.uid = -_CLONE_N[0]
+                            ds.kind, ds.kids = 'DeclStmt', [v]
+                            ds.line, ds.col, ds.file = pos[0], pos[1], pos[2]
+                            decls.append(ds)
+                        else:
+                            mapping[pa.id] = a
+                    body = [_clone_stmt(st, mapping, idmap, pos) for st in stmts]
+                    n.kind, n.kids, n.op, n.val, n.ref, n.refid, n.refkind, n.type = 'CompoundStmt', decls + body, None, None, None, None, None, None
+                    done.add((g.name, g.file))
+                    changed = True
+        if not changed:
+            break
+    for (name, file) in done:
+        g = helpers[(name, file)][0]
+        # keep the helper if a call to it survives somewhere (e.g. inside an expression)
+        alive = any(x.kind == 'DeclRefExpr' and x.refkind == 'FunctionDecl' and x.ref == name for f2 in prog.all_funcs() if f2 is not g and f2.body is not None for x in f2.body.walk())
+        if alive:
+            continue
+        if prog.funcs.get(name) is g:
+            del prog.funcs[name]
+        if prog.alt.get((name, file)) is g:
+            del prog.alt[(name, file)]
+    prog.inlined_helpers = sorted(set(getattr(prog, 'inlined_helpers', [])) | done)
 
 
 def inline_expression_helpers(prog):
@@ -402,6 +549,8 @@ def inline_expression_helpers(prog):
     for f in prog.all_funcs():
         b = f.body
         if not (f.static and (f.file or '').endswith('.c') and b is not None and len(b.kids) == 1 and b.kids[0].kind == 'ReturnStmt' and b.kids[0].kids):
+            continue
+        if f.name in known_names() and f.name not in ('closer', 'log2_ceil'):
             continue
         expr = b.kids[0].kids[0]
         pids = set(p.id for p in f.params)
@@ -534,6 +683,7 @@ def load_program(cfg, ndebug=True, verbose=False, extra_units=None):
         # the caller decides. The model is still cached.
         pass
     inline_expression_helpers(prog)
+    inline_statement_helpers(prog)
     # static locals
     for f in prog.all_funcs():
         for n in f.body.walk():
